@@ -206,6 +206,28 @@ ROUND4 = {
  'C20': 'gates inside analyseModel test errorCount() only (G2); external unknowns are pruned before NLA siblings are determined (N2).',
 }
 
+ROUND5 = {
+ 'C01': 'the AST pass runs only behind the error gate (G4b); nullable kinds nonCommentChildNode / variable.units; helper-aware acquire/release.',
+ 'C02': 'std::unique only after a sort (U1, fixture); per-call state also for helper objects and the printer (H1).',
+ 'C03': 'swap table case "derivative of another variable" (L1); parent links of linked AST nodes (T1).',
+ 'C04': 'silent early returns skip only related checks (E1); XML NameStartChar/NameChar decision table against the specification (N1).',
+ 'C05': 'requalification rules shared with C03/C17 (Q1, Q2: the fixpoint flag is only raised); no internalVariable() lookup after publication (U2).',
+ 'C06': 'dependencies listed before dependants in unitsUsed (O1); references corrected on the transferred object (O2).',
+ 'C07': 'nested fetches do not depend on whether the import source already holds a model (R1).',
+ 'C08': 'per-call state of the analyser (H1 borrowed); areEqual compares through 15-digit text (E1).',
+ 'C09': 'same-owner comparisons through locals (Q1); index re-bounded before a positional insert (I2); no take-while loops (T1, fixture).',
+ 'C10': 'absolute epsilon shortcut of areNearlyEqual (U3); doEquals compares a member with the plain getter of the same member (G1).',
+ 'C11': 'plain getters (G1); detach-before-attach also in the doAddComponent overrides (C09.P1/P2 borrowed).',
+ 'C12': 'no ordering of objects by address (A1, fixture); flattenModel works on and returns a copy (C06.P1/P2 borrowed).',
+ 'C13': 'no id read into a local is overwritten unread (V1).',
+ 'C14': 'element tests name their element (E2); the 1.x mode is decided per document (H1 borrowed).',
+ 'C16': 'exact child counts of token elements (E1); comment-skipping accessors in the analyser (C01.V1 borrowed).',
+ 'C17': 'setters store unconditionally (M1); an analysed variable keeps its component alive (K1); modelHasOdes derives from the model type (O1).',
+ 'C18': 'no take-while loop over equivalence lists (T1, fixture).',
+ 'C19': 'same-owner comparisons (C09.Q1 borrowed).',
+ 'C20': 'the decision to generate a dependency first is made from the dependency (G3); C17.O1 borrowed.',
+}
+
 NOT_YET = {}
 
 NA = {}
@@ -226,7 +248,7 @@ def main():
                 'evidence_file': 'evidence/%s.json' % pid,
                 'replay_cmd_template': './check --replay {path}',
                 'engine': 'sa',
-                'level_claimed': {'category': 'other', 'text': c['text'] + (' Added after round-3 seeding: ' + ROUND3[pid] if pid in ROUND3 else '') + (' Added after round-4 seeding: ' + ROUND4[pid] if pid in ROUND4 else ''), 'design_ref': c['ref']},
+                'level_claimed': {'category': 'other', 'text': c['text'] + (' Added after round-3 seeding: ' + ROUND3[pid] if pid in ROUND3 else '') + (' Added after round-4 seeding: ' + ROUND4[pid] if pid in ROUND4 else '') + (' Added after round-5 seeding and the independent false-alarm study: ' + ROUND5[pid] if pid in ROUND5 else ''), 'design_ref': c['ref']},
                 'level_note': c['note'],
                 'technique': c['technique'],
             })
